@@ -44,9 +44,11 @@ def apply(root, m):
         raise kernel.HarnessError(f"mutant {m['name']}: pattern occurs {cnt}x in {m['file']} (expected {want})")
     s = s.replace(m["old"], m["new"])
     open(path, "w").write(s)
+    for extra in m.get("also", []):
+        apply(root, dict(extra, name=m["name"]))
 
 
-def run_check_on(root, prop, tier, extra_env=None):
+def run_check_on(root, prop, tier, extra_env=None, runs=None):
     env = dict(os.environ)
     env.pop("VERIF_PINNED", None)
     env["VERIF_REPO"] = root
@@ -55,7 +57,7 @@ def run_check_on(root, prop, tier, extra_env=None):
     if extra_env:
         env.update(extra_env)
     t0 = time.time()
-    p = subprocess.run([os.path.join(VERIF_DIR, "vcheck"), prop, "--tier", tier, "--no-evidence"],
+    p = subprocess.run([os.path.join(VERIF_DIR, "vcheck"), prop, "--tier", tier, "--no-evidence"] + (["--runs", str(runs)] if runs else []),
                        capture_output=True, text=True, env=env, cwd=VERIF_DIR)
     return p.returncode, p.stdout, p.stderr, time.time() - t0
 
@@ -83,7 +85,7 @@ def run(props, tier="quick", only=None, with_tests=False):
         root = make_copy()
         try:
             apply(root, m)
-            rc, out, err, wall = run_check_on(root, m["prop"], tier)
+            rc, out, err, wall = run_check_on(root, m["prop"], m.get("tier", tier), runs=m.get("runs"))
             hit = rc == 1 and f"VIOLATION property={m['prop']}" in out
             first = ""
             steps = ""
